@@ -235,7 +235,7 @@ def _copy_post(ctx):
         ("fresh_path", q.term == a0), ("len", pplen(ctx.st, q) == n),
         ("frames_fresh_equal", forall_range(0, n, lambda j: z3.And(ppat(ctx.st, q, j) == a0 + 1 + j, same_frame_fields(ctx.st, ppat(ctx.st, q, j), ctx.old, ppat(ctx.old, p, j))), pattern=lambda j: ppat(ctx.st, q, j))),
         ("old_frames_untouched", unchanged_below(ctx, sys_fields(), a0)),
-        ("old_paths_untouched", unchanged_below(ctx, ["Path.pp", "Path.pp#len", "Path.maxlen", "Path.status", "Path.time_origin", "Path.generated0", "Path.weights", "Path.path_number"], a0)),
+        ("old_paths_untouched", unchanged_below(ctx, ["Path.pp", "Path.pp#len", "Path.maxlen", "Path.status", "Path.time_origin", "Path.generated0", "Path.weights", "Path.path_number", "Path.weight"], a0)),
         ("attrs", z3.And(*[fld(ctx.st, "Path." + f, q.term) == fld(ctx.old, "Path." + f, p.term) for f in ("status", "time_origin", "generated0", "maxlen", "path_number", "weights")])),
         ("alloc", ctx.st.alloc == a0 + 1 + n),
     ]
@@ -303,7 +303,7 @@ def _iadd_post(ctx):
         ("only_self_pp", _pp_only_changed_at(ctx, p, ctx.old)),
         ("old_frames_untouched", unchanged_below(ctx, sys_fields(), a0)),
         ("scalars_untouched", unchanged(ctx, PATH_SCALARS)),
-        ("alloc_monotone", ctx.st.alloc >= a0),
+        ("alloc_covers_the_copies", z3.And(ctx.st.alloc >= a0 + k, ctx.st.alloc <= a0 + k + 1)),
     ]
 
 
